@@ -112,49 +112,70 @@ def check(ctx):
             continue
         combos = set()
         skipflags, schemavar = param_roles(fn)
-        for conds, sv in ev.fn_paths(fn, None, lambda n: None):
+        from svlib import select_path
+        all_paths = ev.fn_paths(fn, None, lambda n: None)
+        active = []
+        for conds, sv in all_paths:
             ctext = " & ".join(conds)
             passthrough = sv == ("var", schemavar)
-            inactive = any(c in skipflags for c in conds) or any(c.endswith("is None") for c in conds)
+            inactive = any(c in skipflags for c in conds) or any(re.search(r"^(\w+(\.\w+)*) is None$", c) for c in conds)
             if inactive:
                 if passthrough:
                     r1.ok("%s: schema unchanged when %s" % (fname, [c for c in conds if c in skipflags or c.endswith("is None")][0]))
                 else:
                     r1.bad(V(r1.id, "ZodSchemaBuilder::" + fname, "inactive-path-changes-schema:%s" % render(sv), "with %s the schema is still modified: %s" % (ctext, render(sv))))
                 continue
-            okc, chain, why = parse_chain(sv, schemavar)
-            if not okc:
-                r1.bad(V(r1.id, "ZodSchemaBuilder::" + fname, "chain-shape:%s" % render(sv)[:80], "appended constraints have an unexpected form (%s): %s" % (why, render(sv))))
-                continue
-            has_min, has_max, has_msg = flags_from_conds(conds)
-            want = []
-            if has_min:
-                want.append("min")
-            if has_max:
-                want.append("max")
-            got = [m for (m, h, e) in chain]
-            bad = None
-            if got != want:
-                bad = "constraints %s emitted when %s are present" % (got, want)
-            for (m, h, e) in chain:
-                if not re.search(r"(^|\.)%s$" % m, h):
-                    bad = ".%s(..) is bound to `%s`" % (m, h)
-                if not h.startswith((kind, "validator." + kind)) and not re.fullmatch(r"min|max", h):
-                    bad = ".%s(..) of the %s validator reads `%s`" % (m, kind, h)
-                if has_msg and e is not True:
-                    bad = "message is %s" % ("not escaped" if e is False else "dropped although present")
-                if not has_msg and e is not None:
-                    bad = "a message is emitted although none is present"
-            combos.add((has_min, has_max, has_msg))
-            if bad:
-                r1.bad(V(r1.id, "ZodSchemaBuilder::" + fname, "chain:%s:%s" % ("".join("m" if x else "-" for x in (has_min, has_max, has_msg)), render(sv)[:90]),
-                         "%s (path: %s): %s" % (bad, ctext[-120:], render(sv))))
-            else:
-                r1.ok("%s min=%s max=%s msg=%s → %s" % (fname, has_min, has_max, has_msg, render(sv)))
-        need = {(a, b, c) for a in (True, False) for b in (True, False) for c in (True, False) if a or b}
-        for miss in sorted(need - combos):
-            r1.bad(V(r1.id, "ZodSchemaBuilder::" + fname, "missing-combination:%s" % "".join("m" if x else "-" for x in miss),
-                     "no path renders the combination min=%s max=%s message=%s" % miss))
+            active.append((conds, sv))
+        # the constraint's own variable (`length` / `range`, whatever it is called): the subject of the .min/.max/.message tests
+        cvar = None
+        for conds, _sv in active:
+            for c in conds:
+                m_ = re.search(r"\b(\w+)\.(min|max|message)\b", c)
+                if m_:
+                    cvar = m_.group(1)
+        if cvar is None:
+            r1.bad(V(r1.id, "ZodSchemaBuilder::" + fname, "chain-shape:no-bound-tests", "no path tests the bounds of the %s constraint" % kind))
+            continue
+        # decided as a table over (min, max, message) ∈ {Some, None}³, however the cases are spelled (if-let chain or one match on the triple)
+        for has_min in (True, False):
+            for has_max in (True, False):
+                for has_msg in (True, False):
+                    asg = {cvar + ".min": "Some" if has_min else "None", cvar + ".max": "Some" if has_max else "None", cvar + ".message": "Some" if has_msg else "None"}
+                    sel = select_path(active, asg)
+                    tag = "".join("m" if x else "-" for x in (has_min, has_max, has_msg))
+                    if sel is None:
+                        if has_min or has_max:
+                            r1.bad(V(r1.id, "ZodSchemaBuilder::" + fname, "missing-combination:%s" % tag, "no path renders the combination min=%s max=%s message=%s" % (has_min, has_max, has_msg)))
+                        continue
+                    conds, sv, _certain = sel
+                    ctext = " & ".join(conds)
+                    if not (has_min or has_max):
+                        if sv != ("var", schemavar):
+                            r1.bad(V(r1.id, "ZodSchemaBuilder::" + fname, "chain:%s:%s" % (tag, render(sv)[:90]), "without bounds the schema is still modified: %s" % render(sv)))
+                        continue
+                    okc, chain, why = parse_chain(sv, schemavar)
+                    if not okc:
+                        r1.bad(V(r1.id, "ZodSchemaBuilder::" + fname, "chain-shape:%s" % render(sv)[:80], "appended constraints have an unexpected form (%s): %s" % (why, render(sv))))
+                        continue
+                    want = (["min"] if has_min else []) + (["max"] if has_max else [])
+                    got = [m for (m, h, e) in chain]
+                    bad = None
+                    if got != want:
+                        bad = "constraints %s emitted when %s are present" % (got, want)
+                    for (m, h, e) in chain:
+                        if not re.search(r"(^|\.)%s$" % m, h):
+                            bad = ".%s(..) is bound to `%s`" % (m, h)
+                        if not h.startswith((kind, "validator." + kind, cvar + ".")) and not re.fullmatch(r"min|max", h):
+                            bad = ".%s(..) of the %s validator reads `%s`" % (m, kind, h)
+                        if has_msg and e is not True:
+                            bad = "message is %s" % ("not escaped" if e is False else "dropped although present")
+                        if not has_msg and e is not None:
+                            bad = "a message is emitted although none is present"
+                    combos.add((has_min, has_max, has_msg))
+                    if bad:
+                        r1.bad(V(r1.id, "ZodSchemaBuilder::" + fname, "chain:%s:%s" % (tag, render(sv)[:90]), "%s (path: %s): %s" % (bad, ctext[-120:], render(sv))))
+                    else:
+                        r1.ok("%s min=%s max=%s msg=%s → %s" % (fname, has_min, has_max, has_msg, render(sv)))
     fn = sb("apply_string_validators")
     if fn is None:
         r1.bad(V(r1.id, "<anchor>", "missing:apply_string_validators", "anchor not found"))
